@@ -131,6 +131,17 @@ func (c schedCfg) dstTag(id string) string {
 	return ""
 }
 
+// c18Violate reports a violation unless the window edge involved is a wall-clock time that occurs twice on
+// that day (end of daylight saving): the configuration then names two instants and the statement does not
+// say which one is meant, so the run is not judged further (the caller stops the run).
+func c18Violate(env *Env, fp, format string, a ...any) {
+	if strings.Contains(fp, "window-edge-in-repeated-dst-hour") {
+		env.Stat("not_judged_window_edge_in_repeated_dst_hour")
+		return
+	}
+	env.Violate(fp, format, a...)
+}
+
 func fmtTod(s int) string { return fmt.Sprintf("%02d:%02d:%02d", s/3600, s/60%60, s%60) }
 
 func runC18(env *Env, tier string) {
@@ -241,6 +252,11 @@ func runC18(env *Env, tier string) {
 	}
 	base = time.Now()
 
+	if ch.Chance("initiatorrole", 1, 4) {
+		runC18Initiator(env, c, sc, extra, base)
+		return
+	}
+
 	s := StartSut(env, c)
 	p := s.P
 	a := NewAdv(s, 30, AdvOpts{HonestLogon: true})
@@ -322,7 +338,7 @@ func runC18(env *Env, tier string) {
 		if want {
 			r := resetsSeen()
 			if (r > lastResets) != (id != prevID) {
-				env.Violate("C18/reset"+sc.dstTag(id)+sc.dstTag(prevID), "at %s (window opened %s; previous in-window instant's window %q): store was reset %d times since, schedule %v", desc, id, prevID, r-lastResets, extra)
+				c18Violate(env, "C18/reset"+sc.dstTag(id)+sc.dstTag(prevID), "at %s (window opened %s; previous in-window instant's window %q): store was reset %d times since, schedule %v", desc, id, prevID, r-lastResets, extra)
 				break
 			}
 			lastResets, prevID = r, id
@@ -337,7 +353,7 @@ func runC18(env *Env, tier string) {
 		_, got := LastOfType(r, "A")
 		env.Note("probe %s: in window %v, logon accepted %v", desc, want, got)
 		if got != want {
-			env.Violate("C18/classification"+sc.dstTag(id), "%s is %s a window of schedule %v, but a valid Logon was %s", desc, map[bool]string{true: "inside", false: "outside"}[want], extra, map[bool]string{true: "accepted", false: "refused"}[got])
+			c18Violate(env, "C18/classification"+sc.dstTag(id), "%s is %s a window of schedule %v, but a valid Logon was %s", desc, map[bool]string{true: "inside", false: "outside"}[want], extra, map[bool]string{true: "accepted", false: "refused"}[got])
 			break
 		}
 		if !want {
@@ -371,7 +387,7 @@ func runC18(env *Env, tier string) {
 					time.Sleep(time.Until(closeAt.Add(-3 * time.Second)))
 					env.Settle()
 					if out := p.Collect(); len(out) != 0 || !p.Connected() {
-						env.Violate("C18/early-logout"+sc.dstTag(id), "connection held in window %s: engine acted %v before the window's end (%s): %s", id, time.Until(closeAt), closeAt.In(sc.loc).Format("15:04:05"), summarize(out))
+						c18Violate(env, "C18/early-logout"+sc.dstTag(id), "connection held in window %s: engine acted %v before the window's end (%s): %s", id, time.Until(closeAt), closeAt.In(sc.loc).Format("15:04:05"), summarize(out))
 						break
 					}
 				}
@@ -379,7 +395,7 @@ func runC18(env *Env, tier string) {
 				env.Settle()
 				out := p.Collect()
 				if _, lo := LastOfType(out, "5"); !lo || p.Connected() {
-					env.Violate("C18/no-logout-at-window-end"+sc.dstTag(id), "connection held across the end of window %s (%s): 3 s later logout sent=%v connection open=%v", id, closeAt.In(sc.loc).Format("2006-01-02 15:04:05"), lo, p.Connected())
+					c18Violate(env, "C18/no-logout-at-window-end"+sc.dstTag(id), "connection held across the end of window %s (%s): 3 s later logout sent=%v connection open=%v", id, closeAt.In(sc.loc).Format("2006-01-02 15:04:05"), lo, p.Connected())
 					break
 				}
 				env.Stat("probe_logged_out_at_window_end")
@@ -399,4 +415,104 @@ func runC18(env *Env, tier string) {
 		mode = "weekdays"
 	}
 	env.State(fmt.Sprintf("%s overnight=%v zone=%s", mode, sc.start > sc.end, sc.locName))
+}
+
+// runC18Initiator observes the schedule through an initiator: it dials exactly while an instant is inside a
+// window (it waits for the window to open, also when it was created outside one) and never outside.
+func runC18Initiator(env *Env, c EngineCfg, sc schedCfg, extra map[string]string, base time.Time) {
+	ch := env.Ch
+	const reconnect = 300
+	c.Initiator = true
+	c.HeartBtInt = 30
+	c.ReconnectInterval = reconnect
+	c.LogonTimeout = 4
+	c.LogoutTimeout = 7
+	s := StartSut(env, c)
+	startIn, _ := sc.in(time.Now())
+	env.Cfg["schedule"] = fmt.Sprintf("%v", extra)
+	env.Cfg["role"] = "initiator"
+	env.Cfg["created_in_window"] = startIn
+	env.Stat("probe_initiator_role")
+	if !startIn {
+		env.Stat("probe_initiator_created_outside_window")
+	}
+	spanDays := 2 + ch.Choose("span", 5)
+	nprobes := 3 + ch.Choose("probes", 8)
+	var probes []time.Time
+	lt := base.In(sc.loc)
+	for i := 0; i < nprobes; i++ {
+		day := ch.Choose("probeday", spanDays)
+		var t time.Time
+		if ch.Chance("random", 1, 3) {
+			t = time.Date(lt.Year(), lt.Month(), lt.Day()+day, 0, 0, ch.Choose("probesec", 86400), 0, sc.loc)
+		} else {
+			edge := sc.start
+			if ch.Chance("atend", 1, 2) {
+				edge = sc.end
+			}
+			delta := []int{5, 30, 61, 600, 1200, -320, -400, -1500, -4000}[ch.Choose("delta", 9)]
+			t = time.Date(lt.Year(), lt.Month(), lt.Day()+day, 0, 0, edge+delta, 0, sc.loc)
+		}
+		t = t.Add(time.Duration(137+ch.Choose("ms", 700)) * time.Millisecond)
+		if t.After(time.Now().Add(10 * time.Second)) {
+			probes = append(probes, t)
+		}
+	}
+	sort.Slice(probes, func(i, j int) bool { return probes[i].Before(probes[j]) })
+	const watch = reconnect + 12
+	stableOver := func(t time.Time) (bool, bool) {
+		in0, id0 := sc.in(t.Add(-3 * time.Second))
+		for d := -2; d <= watch+3; d++ {
+			if in1, id1 := sc.in(t.Add(time.Duration(d) * time.Second)); in1 != in0 || id1 != id0 {
+				return in0, false
+			}
+		}
+		return in0, true
+	}
+	dialledIn, quietOut := 0, 0
+	for _, t := range probes {
+		if env.Failed() {
+			break
+		}
+		if !t.After(time.Now().Add(3 * time.Second)) {
+			continue
+		}
+		want, ok := stableOver(t)
+		if !ok {
+			continue
+		}
+		time.Sleep(time.Until(t))
+		env.Settle()
+		for _, ep := range s.W.TakeDialled() {
+			ep.FeedEOF(nil)
+		}
+		env.Settle()
+		// nobody answers the Logon: the attempt times out and the initiator waits for its reconnect
+		// interval; inside a window at least one dial falls into any period of that length
+		dials := 0
+		for k := 0; k < watch; k += 4 {
+			env.Advance(4 * time.Second)
+			for _, ep := range s.W.TakeDialled() {
+				dials++
+				ep.FeedEOF(nil)
+			}
+		}
+		env.Settle()
+		ltp := t.In(sc.loc)
+		desc := fmt.Sprintf("%s %s (%s)", ltp.Weekday(), ltp.Format("2006-01-02 15:04:05"), sc.locName)
+		env.Note("probe %s: in window %v, dials in the next %d s: %d", desc, want, watch, dials)
+		if (dials > 0) != want {
+			_, id := sc.in(t)
+			c18Violate(env, "C18/initiator-classification"+sc.dstTag(id), "%s is %s a window of schedule %v (engine created %s one), but the initiator dialled %d times in the following %d s (ReconnectInterval %d s)",
+				desc, map[bool]string{true: "inside", false: "outside"}[want], extra, map[bool]string{true: "inside", false: "outside"}[startIn], dials, watch, reconnect)
+			return
+		}
+		if want {
+			dialledIn++
+		} else {
+			quietOut++
+		}
+	}
+	env.Nontrivial = dialledIn > 0 && quietOut > 0
+	env.State(fmt.Sprintf("initiator in=%v out=%v createdin=%v weekly=%v", dialledIn > 0, quietOut > 0, startIn, sc.weekly))
 }
